@@ -263,7 +263,8 @@ def type_text(t, frm: Optional[MsgDef]) -> str:
     if isinstance(t, TInt):
         return f"int{t.n}"
     if isinstance(t, TArray):
-        cap = getattr(t, "cap_text", None) or str(t.cap)
+        cc = getattr(t, "cap_const", None)
+        cap = (import_prefix(cc) + cc.name) if cc is not None else (getattr(t, "cap_text", None) or str(t.cap))
         return f"{type_text(t.elem, frm)}[{cap}]" + ("'" if t.ext else "")
     if isinstance(t, TRef):
         return bp_ref(t.d, frm)
